@@ -48,6 +48,12 @@ fn n_atoms(u: &mut Unstructured, day: i64, op: u8) -> arbitrary::Result<u32> {
         }
         5 => u.int_in_range(0..=50u32)?,
         6 => u.int_in_range(0..=5000u32)?,
+        // whole multiples of a year, a leap cycle, a century, a 400-year cycle (+- a few)
+        7 => {
+            let base = *u.choose(&[12u32, 48, 1200, 4800, 4, 100, 400])?;
+            let k = u.int_in_range(0..=60u32)?;
+            (k * base).saturating_add(u.int_in_range(0..=2u32)?).saturating_sub(1)
+        }
         _ => gen::count(u)?,
     })
 }
@@ -181,6 +187,11 @@ impl Prop for Months {
                 _ => d0.sub_years(c.n),
             };
             let i = rd_dt(&r);
+            if (c.ns ^ c.day) % 4 == 0 {
+                if let Err(why) = canonical_dt(&r) {
+                    panic!("non-canonical result: {}", why);
+                }
+            }
             (i.div_euclid(tl::DAY_NS) as i64, i.rem_euclid(tl::DAY_NS) as i64, Some(r.get_offset()))
         });
         if c.off != 0 {
